@@ -6,6 +6,8 @@ package main
 //   * mergeChecksOwnFunction: the conditions of the two `if v, ok := binaryExpr.X.(*js.Var); …` in
 //     mergeVarDeclExprStmt are {ok, v.Decl == js.VariableDecl} (false) or additionally declaredInFunc(decl, v) (true);
 //   * isShadowedKnowsWhile: isShadowed has two parameters (false) or a third one fed from whileHeadVisitor (true);
+//   * endsInIfOptimizesLoops: the ForStmt case of endsInIf is `return endsInIf(stmt.Body)` (false) or first assigns
+//     `stmt.Body.List = optimizeStmtList(stmt.Body.List, iterationBlock)` (true);
 //   * catchKeepsAssignedByVar: the condition under which minifyStmt drops a catch binding is
 //     {ok, v.Uses == 1, m.o.minVersion(2019)} (false) or additionally !assignedByVar(stmt.Catch, v.Data) (true).
 // Any other shape is an error: the model does not know what the code checks.
@@ -133,6 +135,51 @@ func init() {
 		default:
 			return "", fmt.Errorf("minifyStmt: unknown condition for dropping the catch binding %q", strings.Join(catchConds[0], " && "))
 		}
+		// 4. endsInIf
+		ef, err := r.FindFunc("js", "", "endsInIf")
+		if err != nil {
+			return "", err
+		}
+		loops := false
+		foundFor := false
+		var ferr error
+		ast.Inspect(ef.Body, func(n ast.Node) bool {
+			cc, ok := n.(*ast.CaseClause)
+			if !ok || len(cc.List) != 1 || types.ExprString(cc.List[0]) != "*js.ForStmt" {
+				return true
+			}
+			foundFor = true
+			var texts []string
+			for _, st := range cc.Body {
+				switch x := st.(type) {
+				case *ast.ReturnStmt:
+					if len(x.Results) == 1 {
+						texts = append(texts, "return "+types.ExprString(x.Results[0]))
+						continue
+					}
+				case *ast.AssignStmt:
+					if len(x.Lhs) == 1 && len(x.Rhs) == 1 {
+						texts = append(texts, types.ExprString(x.Lhs[0])+" = "+types.ExprString(x.Rhs[0]))
+						continue
+					}
+				}
+				ferr = fmt.Errorf("endsInIf: unknown statement in the ForStmt case")
+			}
+			switch strings.Join(texts, "; ") {
+			case "return endsInIf(stmt.Body)":
+			case "stmt.Body.List = optimizeStmtList(stmt.Body.List, iterationBlock); return endsInIf(stmt.Body)":
+				loops = true
+			default:
+				ferr = fmt.Errorf("endsInIf: unknown ForStmt case %q", strings.Join(texts, "; "))
+			}
+			return false
+		})
+		if ferr != nil {
+			return "", ferr
+		}
+		if !foundFor {
+			return "", fmt.Errorf("endsInIf: no ForStmt case")
+		}
 		b := func(x bool) string {
 			if x {
 				return "true"
@@ -148,6 +195,8 @@ func init() {
 			"def isShadowedKnowsWhile : Bool := " + b(while) + "\n\n" +
 			"/-- a catch binding is kept when a `var` of the catch block initialises its name -/\n" +
 			"def catchKeepsAssignedByVar : Bool := " + b(assigned) + "\n\n" +
+			"/-- `endsInIf` optimizes the body of a loop before it looks at its last statement -/\n" +
+			"def endsInIfOptimizesLoops : Bool := " + b(loops) + "\n\n" +
 			"end Verif.Gen.JsHoistFacts\n", nil
 	})
 }
